@@ -4,6 +4,7 @@ package main
 
 import (
 	"os"
+	"runtime/pprof"
 	"strconv"
 
 	"github.com/polynetwork/poly/common/log"
@@ -27,6 +28,11 @@ func arg(i int) string {
 
 func main() {
 	defer vio.Flush()
+	if pf := os.Getenv("VERIF_PPROF"); pf != "" { // diagnostic only
+		f, _ := os.Create(pf)
+		pprof.StartCPUProfile(f)
+		defer pprof.StopCPUProfile()
+	}
 	log.InitLog(log.FatalLog) // poly logs every rejected header at error level
 	if len(os.Args) < 2 {
 		vio.Fatal("usage: vd-sig <cmd> ...")
